@@ -300,8 +300,18 @@ func guarded(limit time.Duration, f func()) callOutcome {
 	case p := <-done:
 		return callOutcome{Returned: true, Panic: p, Took: time.Since(start)}
 	case <-t.C:
-		return callOutcome{Took: time.Since(start)}
 	}
+	// The limit has passed on the wall clock.  A process that was frozen meanwhile (a snapshot of the machine, a stopped
+	// container) finds the timer expired the moment it wakes up, before the call had a chance to run on: the call gets three
+	// more seconds of time that this process demonstrably had (thirty sleeps of 100 ms that did return).
+	for i := 0; i < 30; i++ {
+		select {
+		case p := <-done:
+			return callOutcome{Returned: true, Panic: p, Took: time.Since(start)}
+		case <-time.After(100 * time.Millisecond):
+		}
+	}
+	return callOutcome{Took: time.Since(start)}
 }
 
 func errString(err error) string {
